@@ -74,7 +74,8 @@ pub fn path_replay(args: &Args, s: &mut Summary) {
         let want_prefix = format!("10,10,1000,6,0,{}", expected_path_text(geta(&c, "out")));
         let obj_line = enc.split('\n').skip_while(|l| *l != "[HitObjects]").nth(1).unwrap_or("");
         s.checks += 1;
-        if !obj_line.starts_with(&want_prefix) {
+        // (C04 is about acceptance of whatever the encoder writes; the exact tokens are C02's business)
+        if prop == "C02" && !obj_line.starts_with(&want_prefix) {
             s.mismatch("encoder-output-differs-from-PathString.EncPath", json!({"text": text, "encoded": obj_line, "want_prefix": want_prefix}));
             return;
         }
@@ -192,7 +193,7 @@ pub fn timing_replay(args: &Args, s: &mut Summary) {
             }
         }
         s.checks += 1;
-        if !ok {
+        if !ok && prop == "C02" {
             let scrolling = matches!(gets(g, "mode"), "taiko" | "mania");
             s.mismatch(if scrolling { "timing-encoder-differs:scrolling-mode" } else { "timing-encoder-differs" },
                        json!({"text": text, "encoded": block, "want": want.iter().map(|w| json!([w["tau"], w["bl"], w["sig"], w["bank"], w["custom"], w["vol"], w["unin"], w["flags"]])).collect::<Vec<_>>()}));
